@@ -340,12 +340,18 @@ pub fn big_string(len: usize, kind: u8) -> String {
 	unit.repeat(len)
 }
 
+/// params: [len, kind] or [len, kind, prefix]: `prefix` times 'a', then `len` times the unit of `kind`
 fn big_from(params: &Params) -> Result<String, ErrorObjectOwned> {
-	let (len, kind): (usize, u8) = params.parse()?;
-	if len > 4_000_000 {
+	let mut seq = params.sequence();
+	let len: usize = seq.next()?;
+	let kind: u8 = seq.next()?;
+	let prefix: Option<usize> = seq.optional_next()?;
+	if len > 4_000_000 || prefix.unwrap_or(0) > 4_000_000 {
 		return Err(ErrorObject::owned(-32602, "too long", None::<()>));
 	}
-	Ok(big_string(len, kind))
+	let mut s = "a".repeat(prefix.unwrap_or(0));
+	s.push_str(&big_string(len, kind));
+	Ok(s)
 }
 
 fn typed_from(params: &Params) -> Result<Value, ErrorObjectOwned> {
@@ -553,6 +559,71 @@ impl Fixture {
 }
 
 // ------------------------------------------------------------------------------------------------
+// low-level entry points: ws::connect and http::call_with_service_builder behind a tower::service_fn
+// ------------------------------------------------------------------------------------------------
+
+impl Fixture {
+	/// WebSocket session through the low-level `ws::connect` API (as in examples/jsonrpsee_server_low_level_api.rs).
+	pub async fn ws_lowlevel(&self) -> Result<WsPeer, String> {
+		use jsonrpsee_server::middleware::rpc::RpcServiceBuilder;
+		use jsonrpsee_server::{ConnectionState, ws};
+		let (client_io, server_io) = tokio::io::duplex(64 * 1024);
+		let stop = self.stop.clone();
+		let methods = self.methods.clone();
+		let server_cfg = self.server_cfg.clone();
+		let guard = ConnectionGuard::new(self.cfg.max_connections as usize);
+		let svc = tower::service_fn(move |req: ::http::Request<hyper::body::Incoming>| {
+			let methods = methods.clone();
+			let server_cfg = server_cfg.clone();
+			let stop = stop.clone();
+			let guard = guard.clone();
+			async move {
+				let Some(permit) = guard.try_acquire() else {
+					return Ok::<_, Infallible>(jsonrpsee_server::http::response::too_many_requests());
+				};
+				let conn = ConnectionState::new(stop, 0, permit);
+				if ws::is_upgrade_request(&req) {
+					match ws::connect(req, server_cfg, methods, conn, RpcServiceBuilder::new()).await {
+						Ok((rp, conn_fut)) => {
+							tokio::spawn(conn_fut);
+							Ok(rp)
+						}
+						Err(rp) => Ok(rp),
+					}
+				} else {
+					Ok(jsonrpsee_server::http::call_with_service_builder(req, server_cfg, conn, methods, RpcServiceBuilder::new()).await)
+				}
+			}
+		});
+		let stop2 = self.stop.clone();
+		let conn = tokio::spawn(async move {
+			let _ = jsonrpsee_server::serve_with_graceful_shutdown(server_io, svc, stop2.shutdown()).await;
+		});
+		WsPeer::connect(client_io, conn).await
+	}
+
+	/// One HTTP request through the low-level `http::call_with_service_builder` API.
+	pub async fn http_lowlevel(&self, req: HttpReq) -> HttpResp {
+		use jsonrpsee_server::ConnectionState;
+		use jsonrpsee_server::middleware::rpc::RpcServiceBuilder;
+		let request = match build_request(&req) {
+			Ok(r) => r,
+			Err(e) => return HttpResp { status: 0, body: e.into_bytes(), content_type: None },
+		};
+		let guard = ConnectionGuard::new(8);
+		let conn = ConnectionState::new(self.stop.clone(), 0, guard.try_acquire().unwrap());
+		let resp = jsonrpsee_server::http::call_with_service_builder(request, self.server_cfg.clone(), conn, self.methods.clone(), RpcServiceBuilder::new()).await;
+		let status = resp.status().as_u16();
+		let content_type = resp.headers().get("content-type").and_then(|v| v.to_str().ok()).map(|s| s.to_string());
+		let body = match resp.into_body().collect().await {
+			Ok(c) => c.to_bytes().to_vec(),
+			Err(e) => e.to_string().into_bytes(),
+		};
+		HttpResp { status, body, content_type }
+	}
+}
+
+// ------------------------------------------------------------------------------------------------
 // HTTP
 // ------------------------------------------------------------------------------------------------
 
@@ -633,8 +704,12 @@ pub enum WsEvent {
 	Error(String),
 }
 
+pub trait Io: tokio::io::AsyncRead + tokio::io::AsyncWrite + Send + Unpin {}
+impl<T: tokio::io::AsyncRead + tokio::io::AsyncWrite + Send + Unpin> Io for T {}
+pub type BoxIo = Box<dyn Io>;
+
 pub struct WsPeer {
-	pub sender: Option<soketto::Sender<Compat<tokio::io::DuplexStream>>>,
+	pub sender: Option<soketto::Sender<Compat<BoxIo>>>,
 	pub events: mpsc::UnboundedReceiver<WsEvent>,
 	reader: tokio::task::JoinHandle<()>,
 	pub conn_task: tokio::task::JoinHandle<()>,
@@ -670,7 +745,8 @@ impl ReadGate {
 }
 
 impl WsPeer {
-	pub async fn connect(io: tokio::io::DuplexStream, conn_task: tokio::task::JoinHandle<()>) -> Result<WsPeer, String> {
+	pub async fn connect(io: impl Io + 'static, conn_task: tokio::task::JoinHandle<()>) -> Result<WsPeer, String> {
+		let io: BoxIo = Box::new(io);
 		let mut client = soketto::handshake::Client::new(io.compat(), "localhost", "/");
 		match client.handshake().await {
 			Ok(soketto::handshake::ServerResponse::Accepted { .. }) => {}
